@@ -157,10 +157,12 @@ package hpack
 //@   ensures [C18:string-length-limit-enforced-before-buffering] err == nil && d.maxStrLen != 0 ==> len(u.b) <= d.maxStrLen
 
 //@ -- Huffman decoding and the buffer pool are outside the generator's subset (variable shifts, sync.Pool): assumed
+//@ ghost var lastDecoded string
 //@ func (*Decoder).decodeString :: d, u -> s, err
 //@   props C18
 //@   trusted
-//@   assigns nothing
+//@   assigns lastDecoded
+//@   ensures err == nil ==> lastDecoded == s
 //@   ensures err == nil && !u.isHuff ==> s == u.b
 //@   ensures err == nil ==> len(s) <= 2 * len(u.b) && (d.maxStrLen != 0 && u.isHuff ==> len(s) <= d.maxStrLen)
 //@   ensures err != nil ==> u.isHuff && err != errNeedMore
@@ -210,7 +212,7 @@ package hpack
 //@ func (*Decoder).parseFieldLiteral :: d, n, it -> err
 //@   props C18,C10
 //@   requires d != nil && smallState(d) && emitOK(d) && (n == 4 || n == 6) && 0 <= it && it <= 2
-//@   assigns d.buf, d.emitted, d.dynTab.size, d.dynTab.table.ents, d.dynTab.table.evictCount, mapOf(d.dynTab.table.byName), mapOf(d.dynTab.table.byNameValue)
+//@   assigns d.buf, d.emitted, lastDecoded, d.dynTab.size, d.dynTab.table.ents, d.dynTab.table.evictCount, mapOf(d.dynTab.table.byName), mapOf(d.dynTab.table.byNameValue)
 //@   cut h1 after at#1 use szEach(d.dynTab.table.ents, len(d.dynTab.table.ents) - (nameIdx - 61), len(d.dynTab.table.ents))
 //@   ensures [C18:need-more-changes-nothing] err == errNeedMore ==> d.buf == old(d.buf) && d.emitted == old(d.emitted) && d.dynTab.table.ents == old(d.dynTab.table.ents) && d.dynTab.size == old(d.dynTab.size)
 //@   ensures [C18:success-consumes-a-prefix] err == nil ==> len(d.buf) < len(old(d.buf)) && d.buf == old(d.buf)[len(old(d.buf)) - len(d.buf):]
@@ -219,12 +221,13 @@ package hpack
 //@   ensures [C18:success-means-emitted-when-enabled] err == nil && d.emitEnabled ==> len(d.emitted) == len(old(d.emitted)) + 1 && (d.emitted[len(old(d.emitted))].Sensitive <==> it == 2)
 //@   ensures [C18:indexed-literal-becomes-newest-entry] err == nil && it == 0 && d.emitEnabled && len(d.dynTab.table.ents) > 0 && entSize(d.emitted[len(old(d.emitted))]) <= d.dynTab.maxSize ==> d.dynTab.table.ents[len(d.dynTab.table.ents)-1].Name == d.emitted[len(old(d.emitted))].Name && d.dynTab.table.ents[len(d.dynTab.table.ents)-1].Value == d.emitted[len(old(d.emitted))].Value
 //@   ensures [C18:table-stays-consistent] smallState(d) || (err != nil && err != errNeedMore)
+//@   ensures [C18:indexed-literal-stores-the-decoded-value-emitted-or-not] err == nil && it == 0 && len(d.dynTab.table.ents) > 0 ==> d.dynTab.table.ents[len(d.dynTab.table.ents)-1].Value == lastDecoded
 
 //@ func (*Decoder).parseHeaderFieldRepr :: d -> err
 //@   props C18,C10
 //@   requires d != nil && smallState(d) && emitOK(d)
 //@   requires [C18:called-with-input] len(d.buf) > 0
-//@   assigns d.buf, d.emitted, d.dynTab.maxSize, d.dynTab.size, d.dynTab.table.ents, d.dynTab.table.evictCount, mapOf(d.dynTab.table.byName), mapOf(d.dynTab.table.byNameValue)
+//@   assigns d.buf, d.emitted, lastDecoded, d.dynTab.maxSize, d.dynTab.size, d.dynTab.table.ents, d.dynTab.table.evictCount, mapOf(d.dynTab.table.byName), mapOf(d.dynTab.table.byNameValue)
 //@   ensures [C18:need-more-changes-nothing] err == errNeedMore ==> d.buf == old(d.buf) && d.emitted == old(d.emitted) && d.dynTab.table.ents == old(d.dynTab.table.ents) && d.dynTab.size == old(d.dynTab.size) && d.dynTab.maxSize == old(d.dynTab.maxSize)
 //@   ensures [C18:success-consumes-a-prefix] err == nil ==> len(d.buf) < len(old(d.buf)) && d.buf == old(d.buf)[len(old(d.buf)) - len(d.buf):]
 //@   ensures [C18:size-update-representation-emits-nothing] 32 <= old(d.buf)[0] && old(d.buf)[0] < 64 ==> d.emitted == old(d.emitted) && (err == nil ==> d.dynTab.maxSize <= d.dynTab.allowedMaxSize)
@@ -248,7 +251,7 @@ package hpack
 //@   props C18,C10
 //@   requires d != nil && wInv(d) && emitOK(d)
 //@   requires [C18:sizes-fit-32-bits] len(p) + len(d.saveBuf.view) <= 268435456 && d.dynTab.table.evictCount + len(d.dynTab.table.ents) + len(p) + len(d.saveBuf.view) < 4611686018427387904
-//@   assigns d.buf, d.saveBuf.view, d.firstField, d.emitted, d.dynTab.maxSize, d.dynTab.size, d.dynTab.table.ents, d.dynTab.table.evictCount, mapOf(d.dynTab.table.byName), mapOf(d.dynTab.table.byNameValue)
+//@   assigns d.buf, d.saveBuf.view, d.firstField, d.emitted, lastDecoded, d.dynTab.maxSize, d.dynTab.size, d.dynTab.table.ents, d.dynTab.table.evictCount, mapOf(d.dynTab.table.byName), mapOf(d.dynTab.table.byNameValue)
 //@   ensures [C18:empty-write-is-a-no-op] len(p) == 0 ==> n == 0 && err == nil && d.saveBuf.view == old(d.saveBuf.view) && d.firstField == old(d.firstField) && d.emitted == old(d.emitted) && d.dynTab.table.ents == old(d.dynTab.table.ents)
 //@   ensures [C18:incomplete-tail-kept-verbatim-for-the-next-write] err == nil && len(p) > 0 ==> n == len(p) && len(d.saveBuf.view) <= len(old(d.saveBuf.view)) + len(p) && d.saveBuf.view == (old(d.saveBuf.view) ++ p)[len(old(d.saveBuf.view)) + len(p) - len(d.saveBuf.view):]
 //@   ensures [C18:nothing-parsed-means-nothing-changed] err == nil && len(p) > 0 && len(d.saveBuf.view) == len(old(d.saveBuf.view)) + len(p) ==> d.firstField == old(d.firstField) && d.emitted == old(d.emitted) && d.dynTab.table.ents == old(d.dynTab.table.ents) && d.dynTab.size == old(d.dynTab.size) && d.dynTab.maxSize == old(d.dynTab.maxSize)
